@@ -428,10 +428,14 @@ func muxRunOps(c *hx.Ctx, maxConn, maxReq uint32, next func(w *world, step int) 
 }
 
 func muxEmit(c *hx.Ctx, maxConn, maxReq uint32, ops, obs []string, w *world) {
+	muxEmitFor(c, "C09", maxConn, maxReq, ops, obs, w)
+}
+
+func muxEmitFor(c *hx.Ctx, prop string, maxConn, maxReq uint32, ops, obs []string, w *world) {
 	if len(ops) == 0 {
 		return
 	}
-	c.Emit("C09", fmt.Sprintf("mux %d %d %s", maxConn, maxReq, strings.Join(ops, ",")), strings.Join(obs, " "))
+	c.Emit(prop, fmt.Sprintf("mux %d %d %s", maxConn, maxReq, strings.Join(ops, ",")), strings.Join(obs, " "))
 	for _, o := range ops {
 		c.Count("mux.op." + strings.TrimRight(o, "0123456789"))
 	}
@@ -533,7 +537,11 @@ var muxBoundary = [][]string{
 	{"I0", "I0", "O0", "O0", "Z", "O0", "I0", "I0", "O0", "N0", "N0"},
 }
 
-func runMux(c *hx.Ctx) {
+func runMux(c *hx.Ctx) { RunMux(c, "C09", c.N(250, 3000)) }
+
+// RunMux runs the multiplex pool histories and emits them as cases of property prop (C09; C10 reuses them for the
+// requests breaker and the request_active gauges, one-way requests included).
+func RunMux(c *hx.Ctx, prop string, n int) {
 	lims := []uint32{0, 1, 2}
 	for _, mc := range lims {
 		for _, mr := range lims {
@@ -542,12 +550,11 @@ func runMux(c *hx.Ctx) {
 					continue
 				}
 				ops, obs, w := muxRunOps(c, mc, mr, scripted(b))
-				muxEmit(c, mc, mr, ops, obs, w)
+				muxEmitFor(c, prop, mc, mr, ops, obs, w)
 			}
 		}
 	}
 	rng := c.Rng.Fork()
-	n := c.N(250, 3000)
 	for i := 0; i < n; i++ {
 		mc := uint32(rng.Intn(3))
 		mr := uint32(rng.Intn(3))
@@ -556,6 +563,6 @@ func runMux(c *hx.Ctx) {
 		}
 		length := 3 + rng.Intn(10)
 		ops, obs, w := muxRunOps(c, mc, mr, muxGen(rng, length))
-		muxEmit(c, mc, mr, ops, obs, w)
+		muxEmitFor(c, prop, mc, mr, ops, obs, w)
 	}
 }
